@@ -160,7 +160,9 @@ def write(sc, d, warm=None, out_name=None, shift=0):
     for nm in extra_forcing(sc):
         ivars[nm] = "float"
     out_iv = ["pid", "X", "Y", "Z"] + (["age"] if sc["age"] else []) + (["temp"] if sc["scalars"] else [])
-    conf = lab.base_conf(d, sc["start"] + shift, sim2time(sc, sc["nsteps"]) + shift, DT, sc["period"] * DT + int(sc.get("period_extra", 0)), str(d / "forcing_*.nc"),
+    # "stop_extra": seconds beyond the last whole step (the run has floor(duration / dt) steps all the same)
+    sgn = -1 if sc["rev"] else 1
+    conf = lab.base_conf(d, sc["start"] + shift, sim2time(sc, sc["nsteps"]) + shift + sgn * int(sc.get("stop_extra", 0)), DT, sc["period"] * DT + int(sc.get("period_extra", 0)), str(d / "forcing_*.nc"),
                          advection=sc["scheme"], reversed_=sc["rev"], numrec=sc["numrec"], layout=sc["layout"],
                          extra_forcing=extra_forcing(sc),
                          ibm=dict(module=str(ibm_path), kill=sc["kill"], age=sc["age"], logfile=str(d / "ibm_log.json")),
